@@ -56,7 +56,7 @@ def _cell(args):
         head = [x for x in s[:R] if x != 0]
         # the range finder applies qr_qua to an m x (R+P) sketch of rank min(rk, ...): rank deficient as soon as
         # the sketch is wider than rank(A) (C06 finding); repeated singular values hit the contraction (C05 finding)
-        degenerate = (len(set(x for x in s if x != 0)) < rk) or rk < min(m, n, R + P)
+        degenerate = (len(set(x for x in s if x != 0)) < rk) or rk < min(m, R + P)
         cls = "rank-deficient-sketch-or-repeated-values" if degenerate else "full-rank-sketch-simple-spectrum"
         ey = math.sqrt(sum(x * x for x in s[R:]))
         for seed in seeds:
